@@ -370,6 +370,16 @@ class _InlineStmts(ast.NodeTransformer):
         return node
 
     def visit_Return(self, node):
+        v = node.value
+        if isinstance(v, ast.ListComp) and len(v.generators) == 1 and not v.generators[0].ifs and \
+                Inliner._self_call(v.elt):
+            tmp = _fresh('result')
+            asg = ast.copy_location(ast.Assign(targets=[ast.Name(id=tmp, ctx=ast.Store())], value=v,
+                                               type_comment=None), node)
+            r = self.visit_Assign(asg)
+            if isinstance(r, list):
+                return r + [ast.copy_location(ast.Return(value=ast.Name(id=tmp, ctx=ast.Load())), node)]
+            return node
         if isinstance(node.value, ast.Call):
             tmp = _fresh('ret')
             r = self._try(node.value, [ast.Name(id=tmp, ctx=ast.Store())], node)
